@@ -56,6 +56,10 @@ CONVS = {
     "string(length=2)": (r"[^/]{2}", str, STR, None),
     "string(minlength=2)": (r"[^/]{2,}", str, STR, None),
     "string(maxlength=2)": (r"[^/]{1,2}", str, STR, None),
+    "string(length=3)": (r"[^/]{3}", str, STR, None),
+    "string(minlength=3)": (r"[^/]{3,}", str, STR, None),
+    "string(maxlength=3)": (r"[^/]{1,3}", str, STR, None),
+    "int(min=10,max=99)": (r"[0-9]+", int, NUM, _range(10, 99)),
     "int": (r"[0-9]+", int, NUM, None),
     "int(fixed_digits=2)": (r"[0-9]{2}", int, NUM, None),
     "int(fixed_digits=3)": (r"[0-9]{3}", int, NUM, None),
@@ -396,9 +400,12 @@ class RefMap:
             a.key for a in mine
             if a.kind in "XL" and not any(better(d.rule, a.rule) is True for d in direct_def)
         }
+        # merging slashes is a fallback ("Slashes in variable parts are not merged"): when a rule definitely admits
+        # the path as it is - exactly, laxly or through the trailing-slash redirect - a merged admission justifies
+        # nothing (its redirect would change a variable's value or leave a rule that keeps its '//')
         targets: dict = {}
         for a in mine:
-            if a.kind in "RM":
+            if a.kind == "R" or (a.kind == "M" and not direct_def):
                 targets.setdefault(a.target, []).append(a)
         ex.ok_redirect = {
             t for t, js in targets.items()
@@ -444,7 +451,24 @@ class RefMap:
         adms = self.admissions(p)
         mine = [a for a in adms if a.rule.method_ok(method) and (websocket is None or a.rule.websocket == websocket)]
         direct_def = [a for a in mine if a.definite and a.kind != "M"]
-        out = {a.key for a in mine if a.kind != "O" and not any(better(d.rule, a.rule) is True for d in direct_def)}
+        out = {a.key for a in mine if a.kind != "O" and not (a.kind == "M" and direct_def)
+               and not any(better(d.rule, a.rule) is True for d in direct_def)}
+        if self.merge and "///" in p:
+            # runs of >= 3 slashes (not claimed): whatever a rule admits for the path with its runs shortened
+            runs = [m for m in re.finditer(r"/{2,}", p)]
+            if len(runs) <= 3:
+                import itertools as _it
+                for lens in _it.product(*[range(1, len(m.group()) + 1) for m in runs]):
+                    q, last = "", 0
+                    for m, n in zip(runs, lens):
+                        q += p[last:m.start()] + "/" * n
+                        last = m.end()
+                    q += p[last:]
+                    if q != p:
+                        for a in self.admissions(q):
+                            if a.kind in "XLR" and a.rule.method_ok(method) and \
+                                    (websocket is None or a.rule.websocket == websocket):
+                                out.add(a.key)
         # alias canonicalisation: an alias rule may carry defaults of its own that the canonical rule of the
         # endpoint does not have (werkzeug's documented example: Rule('/index.html', alias=True) next to
         # Rule('/')); following the alias redirect then denotes the same endpoint with the arguments the
@@ -533,6 +557,10 @@ WITNESS = {
     "int(signed=True)": ["1", "-1", "-", "+1"],
     "int(min=2,max=9)": ["1", "2", "5", "9", "10"],
     "string(maxlength=2)": ["x", "xy", "xyz"],
+    "string(length=3)": ["xy", "xyz", "wxyz"],
+    "string(minlength=3)": ["xy", "xyz", "wxyz"],
+    "string(maxlength=3)": ["xy", "xyz", "wxyz"],
+    "int(min=10,max=99)": ["9", "10", "99", "100"],
     "float": ["1.5", "1"],
     "float(min=1.0,max=9.5)": ["0.5", "1.0", "9.5", "9.75"],
     "any(a,b)": ["a", "b", "c"],
